@@ -252,6 +252,7 @@ def clipped_exponentials(repo, col, R, ev, fi, name, fn, refs):
     are exactly arguments that occur in the published form; a new exponent is a change of the kinetics at large |v|."""
     code_args = []
     for kind_, x, stack, node in ev.atoms.clip_sites:
+        stack = kin.real_stack(stack)
         if kind_ != "clip" or not stack or not stack[-1].endswith("save_exp") or len(stack) < 2 or not stack[-2].endswith("." + fn):
             continue
         for _c, r in as_pw(x).pieces:
